@@ -14,3 +14,13 @@ package filter
 //@   implements functype:stick.Iteratee
 //@ func filter.filterReplace$1
 //@   implements functype:stick.Iteratee
+
+// Loop annotations for the no-panic sweep of the built-in filters (C02).
+//@ func filter.filterDate
+//@   loop 1 invariant 0 <= i && i <= maxLen && maxLen == len(requestedLayout)
+//@   loop 1 decreases maxLen - i
+//@ func filter.filterReverse
+//@   loop 1 invariant i < rv_len(arr) && (rv_kind(arr) == 23 || rv_kind(arr) == 17) && rv_valid(arr) && rv_caniface(arr)
+//@   loop 1 decreases i + 1
+//@   loop 2 invariant 0 <= i && j < len(runes) && i + j == len(runes) - 1
+//@   loop 2 decreases j - i + 1
